@@ -121,7 +121,8 @@ def main(argv):
     spec_proc = subprocess.run(
         [PY, '-c', 'import json,dataclasses,importlib;m=importlib.import_module(%r);'
          'print("@@OBS@@"+json.dumps({"obs":[dataclasses.asdict(o) for o in m.OBLIGATIONS],'
-         '"assumptions":getattr(m,"ASSUMPTIONS",[]),"outside":getattr(m,"OUTSIDE",[])}))' % modname],
+         '"assumptions":getattr(m,"ASSUMPTIONS",[]),"outside":getattr(m,"OUTSIDE",[]),'
+         '"preflight":getattr(m,"PREFLIGHT",[])}))' % modname],
         env={**os.environ, 'PYTHONPATH': REPO + os.pathsep + VERIF, 'VERIF_REPO': REPO,
              'PYTHONDONTWRITEBYTECODE': '1'},
         cwd=VERIF, capture_output=True, text=True)
@@ -140,6 +141,19 @@ def main(argv):
     if only:
         obs = [o for o in obs if only in o.oid]
     known = load_known()
+
+    # ---- phase 0: preflight (conformance of environment doubles against the real libraries) -------------
+    preflight = []
+    pre_errors = []
+    if meta.get('preflight') and not only:
+        dummy = Ob('pre', 'preflight', '', '')
+        for spec_ in meta['preflight']:
+            pm, pf = spec_.split(':')
+            r = run_worker(pm, dummy, 'z3', timeout=600, fn=pf)
+            preflight.append({'check': spec_, 'status': r.get('status'), 'what': r.get('what'),
+                              'message': r.get('message'), 'wall_s': r.get('wall_s')})
+            if r.get('status') != 'ok':
+                pre_errors.append('preflight %s failed: %s' % (spec_, r.get('message')))
 
     # ---- phase 1: discharge ------------------------------------------------
     jobs = []   # (key, ob, kind, kwargs)
@@ -183,7 +197,7 @@ def main(argv):
             rres[futs[fu]] = fu.result()
 
     # ---- classify -----------------------------------------------------------
-    violations, harness_errors, known_lines, notes = [], [], [], []
+    violations, harness_errors, known_lines, notes = [], list(pre_errors), [], []
     known_hits = {}
     functions = set()
     rows = []
@@ -297,6 +311,7 @@ def main(argv):
         'functions_encoded': sorted(functions),
         'outside_the_claim': meta.get('outside', []),
         'known_findings_reconfirmed': known_lines,
+        'doubles_conformance': preflight,
         'notes': notes, 'harness_errors': harness_errors,
     }
     write_evidence(prop, tier, seed, rows, extra, wall, len(violations), assumptions,
